@@ -262,23 +262,32 @@ func main() {
 	if !ev.unreachOK {
 		rep.Note("203.0.113.1:80 does not fail fast with ENETUNREACH here: the unreachable-network scenarios are skipped")
 	}
-	var m *modelClient
-	if o.Driver != "" {
+	newModel := func() (*modelClient, error) {
+		if o.Driver == "" {
+			return nil, nil
+		}
 		d, err := common.StartDriver(o.Driver)
-		if err == nil {
-			var tb *tables
-			tb, err = loadTables(d)
-			m = &modelClient{d: d, tb: tb}
-		}
 		if err != nil {
-			fmt.Fprintln(os.Stderr, "corr_c13:", err)
-			rep.Note("engine error: %v", err)
-			rep.Write(o.Out)
-			os.Exit(3)
+			return nil, err
 		}
-		defer d.Close()
-	} else {
+		tb, err := loadTables(d)
+		if err != nil {
+			d.Close()
+			return nil, err
+		}
+		return &modelClient{d: d, tb: tb}, nil
+	}
+	m, err := newModel()
+	if err != nil {
+		fmt.Fprintln(os.Stderr, "corr_c13:", err)
+		rep.Note("engine error: %v", err)
+		rep.Write(o.Out)
+		os.Exit(3)
+	}
+	if m == nil {
 		rep.Note("no driver: oracle only")
+	} else {
+		defer m.d.Close()
 	}
 
 	if o.Replay != "" {
@@ -299,8 +308,15 @@ func main() {
 		start := time.Now()
 		for w := 0; w < workers; w++ {
 			wg.Go(func() {
+				// one model process per worker: the big byte streams make a driver call take up to ~0.2 s
+				wm, err := newModel()
+				if err != nil {
+					wm = m
+				} else if wm != nil {
+					defer wm.d.Close()
+				}
 				for i := range jobs {
-					results[i] = evalOne(genScenario(r.Fork(uint64(i)), ev, i), ev, m)
+					results[i] = evalOne(genScenario(r.Fork(uint64(i)), ev, i), ev, wm)
 				}
 			})
 		}
